@@ -80,6 +80,11 @@ HANDWRITTEN = [
     # misuse in every state
     {"calls": [{"call": "reset_wait"}, {"call": "step_wait"}, {"call": "call_wait"}, {"call": "reset_async"}, {"call": "step_async"},
                {"call": "call_async"}, {"call": "set_attr"}, {"call": "reset_wait"}, {"call": "close"}, {"call": "step_async"}, {"call": "close"}]},
+    # every entry point after close (idle, and with a call that was pending at close)
+    {"calls": [{"call": "reset_async"}, {"call": "reset_wait"}, {"call": "close"}, {"call": "reset_wait"}, {"call": "step_wait"}, {"call": "call_wait"},
+               {"call": "reset_async"}, {"call": "step_async"}, {"call": "call_async"}, {"call": "set_attr"}, {"call": "close"}]},
+    {"calls": [{"call": "reset_async"}, {"call": "reset_wait"}, {"call": "step_async"}, {"call": "close"}, {"call": "step_wait"}, {"call": "call_wait"},
+               {"call": "reset_wait"}, {"call": "close"}]},
     # raise at reset / step / call / set_attr in either worker, then close
     {"faults": {"0": {"1": ["raise", "ValueError"]}}, "calls": [{"call": "reset_async"}, {"call": "reset_wait"}, {"call": "close"}]},
     {"faults": {"1": {"2": ["raise", "KeyError"]}}, "calls": [{"call": "reset_async"}, {"call": "reset_wait"}, {"call": "step_async"}, {"call": "step_wait"}, {"call": "close"}]},
